@@ -241,6 +241,8 @@ class TokCfg:
     def value_of(self, term, lexeme):
         if term in ("STR", "YES", "EMPTY", "QSTR"):
             return lexeme[1:-1]
+        if term == "ECHAR":
+            return lexeme[1:]
         if term == "HERE":
             return lexeme[5:-3]
         if term == "TEXT" or (term == "STRING" and lexeme.startswith("'''")):
@@ -411,6 +413,16 @@ TOKCFGS = [
         [" ", "\n", " /* x */ ", " /* a **/ bc\n /* c */ ", " /* = **/\n*/ ", "/* * */", "  "],
         synonyms={'COMMENT_ML': 'COMMENT', 'W': 'WORD', 'EQ': '='},
         span_matchers={'COMMENT_ML': r"(?P<END_COMMENT>(\*[^/]|[^*])*)\*/"},
+    ),
+    TokCfg(
+        "escapes-with-two-groups",
+        # one alternative of the pattern has two named groups side by side: the backslash and the character behind it;
+        # the token is what the last group that matched says (ECHAR with the character as its value)
+        r"(?P<SPACE>\s+)|(?P<ESC>\\)(?P<ECHAR>.)|(?P<W>[a-z]+)|(?P<EQ>=)",
+        ['ECHAR', 'WORD', '='],
+        {'ECHAR': ['\\n', '\\t', '\\\\', '\\='], 'WORD': ['a', 'bc', 'n'], '=': ['=']},
+        [" ", "\n", "  "],
+        synonyms={'W': 'WORD', 'EQ': '='},
     ),
     TokCfg(
         "nine-letters",
